@@ -2,6 +2,7 @@ package streams
 
 import (
 	"github.com/lmorg/murex/lang/types"
+	"github.com/lmorg/murex/utils/verifhook"
 )
 
 // Shamelessly stolen from https://blog.golang.org/go-slices-usage-and-internals
@@ -37,6 +38,7 @@ func (stdin *Stdin) Stats() (bytesWritten, bytesRead uint64) {
 // GetDataType returns the murex data type for the stream.Io interface
 func (stdin *Stdin) GetDataType() (dt string) {
 	for {
+		verifhook.Gate(stdin, "gdt")
 		select {
 		case <-stdin.ctx.Done():
 			// This should probably be locked to avoid a data race, but I'm also
@@ -47,6 +49,7 @@ func (stdin *Stdin) GetDataType() (dt string) {
 			//stdin.dtLock.Lock()
 			//stdin.mutex.Lock()
 			dt = stdin.dataType
+			verifhook.Emit(stdin, "gdt.cancel", dt)
 			//stdin.dtLock.Unlock()
 			//stdin.mutex.Unlock()
 			if dt != "" {
@@ -63,6 +66,7 @@ func (stdin *Stdin) GetDataType() (dt string) {
 		//stdin.mutex.Unlock()
 		//defer stdin.mutex.Unlock()
 
+		verifhook.Emit(stdin, "gdt", dt, int64(stdin.dependents))
 		if dt != "" {
 			stdin.mutex.Unlock()
 			return
@@ -87,10 +91,12 @@ func (stdin *Stdin) SetDataType(dt string) {
 	}
 
 	//stdin.dtLock.Lock()
+	verifhook.Gate(stdin, "sdt")
 	stdin.mutex.Lock()
 	if stdin.dataType == "" {
 		stdin.dataType = dt
 	}
+	verifhook.Emit(stdin, "sdt", stdin.dataType)
 	//stdin.dtLock.Unlock()
 	stdin.mutex.Unlock()
 }
